@@ -301,7 +301,10 @@ def subscription_violations(sg, rng):
             ("single_root", f"subscription {{ ... on Subscription {{ {sel(a)} }} {sel(b2)} }}"),
             ("single_root_ok_repeated", f"subscription {{ {sel(a)} {sel(a)} }}"),
             ("single_root_ok", f"subscription {{ {sel(a)} }}"),
-            ("single_root_ok_fragment", f"subscription {{ ...R ...R }}\nfragment R on Subscription {{ {sel(a)} }}")]
+            ("single_root_ok_fragment", f"subscription {{ ...R ...R }}\nfragment R on Subscription {{ {sel(a)} }}"),
+            # the rule speaks about subscription operations only: other operations of the same document may select several root fields
+            ("single_root_ok_mixed", f"query Qm {{ __typename k2: __typename }}\nsubscription Sm {{ {sel(a)} }}"),
+            ("single_root_ok_mixed", f"subscription Sm {{ {sel(a)} }}\nquery Qm {{ ...Rq }}\nfragment Rq on Query {{ __typename k2: __typename }}")]
 
 LEGAL_UNUSUAL = [
     "{ __typename __typename }",
